@@ -367,6 +367,50 @@ def perms_part(run, bulk, np):
         run.trace_validated()
 
 
+def ints_part(run, bulk, np):
+    """integer lists wrapped over continuation lines (BulkLists Mode "ints"): wtnasints for every start field 2..9 x 0..MaxN integers"""
+    res = tlc.run("BulkLists", "MC_BulkLists_ints.cfg", timeout=600)
+    if res.violation:
+        run.add_tlc("MC_BulkLists_ints.cfg", res)
+        run.violation("TLC: %s on the BulkLists model" % res.violation, {"tlc": res.error_text()}, {"where": "model"})
+        return
+    run.add_tlc("MC_BulkLists_ints.cfg", res, "start field 2..9 x 0..27 integers; IntLaws (no cell skipped or used twice, fields 2..9, line count)")
+    for start, n, pos, nlines in res.tagged("INTS"):
+        for base, step in ((1, 1), (99999900 - 37 * n, 37), (-9999999, 3)):
+            ints = [base + step * i for i in range(n)]
+            case = {"start": start, "ints": ints}
+            run.case(("ints", start, n, base), nontrivial=n > 10 - start, part="wrapped integer lists")
+            try:
+                for arr in (ints, np.array(ints, dtype=np.int64)):
+                    f = io.StringIO()
+                    f.write("NAME    " + "".join("%8d" % (900 + k) for k in range(start - 2)))
+                    bulk.wtnasints(f, start, arr)
+                    txt = f.getvalue()
+                    lines = txt.split("\n")
+                    if lines[-1] != "":
+                        run.violation("wtnasints: the card does not end with a newline", dict(case, text=txt), {"fn": "wtnasints"})
+                        break
+                    lines = lines[:-1]
+                    got, where = [], []
+                    for li, ln in enumerate(lines):
+                        c = cells(ln)
+                        for fi, cell in enumerate(c[1:], start=2):
+                            if cell.strip() and not (li == 0 and fi < start):
+                                got.append(int(cell))
+                                where.append((li + 1, fi))
+                    if got != ints or any(c.strip() and not c.startswith("+") for ln in lines[1:] for c in cells(ln)[:1]) or any(len(ln) > 72 for ln in lines):
+                        run.violation("wtnasints: the fields of the card (neutral parse) are not the given integers in the given order",
+                                      dict(case, text=txt, parsed=got), {"fn": "wtnasints"})
+                        break
+                    if where != [tuple(p_) for p_ in pos] or len(lines) != nlines:
+                        run.deviation("BulkLists.IntPos", "wtnasints: integers are not in the cells the layout model gives (start %d, %d integers)" % (start, n),
+                                      dict(case, text=txt))
+                        break
+            except Exception as ex:
+                run.violation("wtnasints: raised %r" % ex, case, {"fn": "wtnasints"})
+            run.trace_validated()
+
+
 def geometry_part(run, bulk, np):
     """GRID / CORD2x / USET-to-bulk round trips (values to field precision, ids and order exact)"""
     from pyyeti.nastran import n2p
@@ -474,6 +518,7 @@ def body(run: Run, replay):
     run.assumptions = ["values compared to the precision of the written format", "text parsed by a neutral fixed-column cell splitter"]
     lists_part(run, bulk, np)
     perms_part(run, bulk, np)
+    ints_part(run, bulk, np)
     dmig_part(run, bulk, np, pd)
     geometry_part(run, bulk, np)
 
